@@ -439,6 +439,14 @@ class StmtMixin:
             raise Unsupported('loop not found in function index')
         lc = f.contract.loops.get(k)
         if lc is None:
+            # a loop may also be addressed by a piece of its header text ('for key in potential_removed_keys'), which survives
+            # the insertion of another loop before it
+            head = ast.unparse(s).split('\n', 1)[0]
+            for needle, cand in f.contract.loops.items():
+                if isinstance(needle, str) and needle in head:
+                    lc = cand
+                    break
+        if lc is None:
             raise Unsupported(f'loop {k} of {f.fs.qual} over a symbolic sequence needs an invariant')
         return k, lc, f
 
